@@ -11,7 +11,7 @@ SPEC = {
                   "every position and interleaved with a small-step reader: round trip (node for node), miss, crash atomicity "
                   "(full for compressed caches; plain caches when the old entry's requested outputs are leaves, which includes "
                   "every fresh key), one-store/one-retrieve interleaving on a fresh key - and, for compressed caches, at full "
-                  "strength with an old entry present (C12_concurrent_compressed) since /repo 8962d3b fixed the finding "
+                  "strength with an old entry present (C12_concurrent_compressed) since /repo f413d7f fixed the finding "
                   "`compressed-retrieve-enoent-reported-as-hit` (the old witness is kept conditional on the old fact value).  The "
                   "full statement is still refuted for plain caches by one witness (re-store removes the old entry in place), "
                   "replayed on the real code.  Left out of the model: I/O errors other than a missing source output, "
@@ -65,7 +65,7 @@ M4  storeCompressed: `fs.RemoveAll(filename)` after a failed storeCompressed2 de
 M5  harmless: Store's locals renamed (cacheDir->entry, tmpDir->staging) and the two path computations swapped
     -> exit 0, 19/19, facts regenerated (roles come from how a variable is assigned, not from its name), 0 disagreements.
 
-FIX PHASE.  /repo 8962d3b repairs compressed-retrieve-enoent-reported-as-hit (retrieveFiles: `return false, err`); re-introduction
+FIX PHASE.  /repo f413d7f repairs compressed-retrieve-enoent-reported-as-hit (retrieveFiles: `return false, err`); re-introduction
 (git revert on a scratch copy): exit 1, VIOLATION class compressed-retrieve-enoent-reported-as-hit, 22/23 (C12_facts_ok).
 restore-removes-old-entry-in-place stays a known finding: repairing it means changing Store's whole sequence (build the new entry,
 move the old one aside, rename, remove) - more than a small patch.  Quick on a quiet machine: 62-97 s.
